@@ -9,6 +9,11 @@ package main
 // harness's own specification server (x_envelope.go) sealed:
 //   refuse               the packet is an alteration / forgery / inconsistent re-sealing: must be an error
 //   ok:salt:sid:mid:seq:body   the packet is a valid sealing of exactly this message
+//   alt:salt:sid:mid:seq:body  a ciphertext bit of a valid sealing of this message was flipped: must be an
+//                        error — or, when the flip only reached padding as far as the msg_key can
+//                        tell (MTProto 1.0's msg_key covers header+body, not the padding; the flipped
+//                        block still decrypts to the same header/body bytes with probability 2^-8k, k =
+//                        non-padding bytes in the last block), the very same message
 //   any                  arbitrary bytes: no expectation beyond the two below
 // and for every operation, independent of the expectation: never a panic; an accepted message must
 // be what the specification's receiver (direction 8) recovers from those bytes.
@@ -31,6 +36,7 @@ func c04Open(key, pkt []byte) string {
 
 // distribution of result kinds per operation, reported in the evidence file
 var c04Kinds = map[string]int{}
+var c04SameMsg int // ciphertext flips that left header+body intact and were delivered as the same message
 var c04G *G
 
 func c04Kind(out string) string {
@@ -84,7 +90,7 @@ func c04Expect(m envMsg, bodyTok string) string {
 
 func c04ParseExpect(s string) (envMsg, bool) {
 	p := strings.Split(s, ":")
-	if len(p) < 6 || p[0] != "ok" {
+	if len(p) < 6 || (p[0] != "ok" && p[0] != "alt") {
 		return envMsg{}, false
 	}
 	return envMsg{Salt: envU64(p[1]), Sid: envU64(p[2]), Mid: envU64(p[3]), Seq: uint32(envU64(p[4])), Body: envTok(strings.Join(p[5:], ":"))}, true
@@ -138,6 +144,14 @@ func c04Judge(op []string, out string) string {
 		case expect == "refuse":
 			if accepted {
 				return "an altered / forged / inconsistent packet was accepted: " + clip(res)
+			}
+		case strings.HasPrefix(expect, "alt:"):
+			if accepted {
+				m, _ := c04ParseExpect(expect)
+				if res != envShowMsg(m) {
+					return "an altered packet produced a message different from the one sealed: sealed was " + clip(envShowMsg(m))
+				}
+				c04SameMsg++ // the alteration is invisible to the msg_key: same header and body
 			}
 		case strings.HasPrefix(expect, "ok:"):
 			m, _ := c04ParseExpect(expect)
@@ -240,6 +254,7 @@ func c04Gen(g *G) {
 		b := c04NewBase(g, bl)
 		n := len(b.pkt)
 		okExp := c04Expect(b.m, b.bodyTok)
+		altExp := "alt" + strings.TrimPrefix(okExp, "ok")
 		c04Emit(g, b.keyTok, b.pkt, okExp, 1, "valid")
 
 		// (1) every single-bit flip of the 24-byte header; of the ciphertext: all (thorough) / sampled
@@ -248,7 +263,7 @@ func c04Gen(g *G) {
 		}
 		if th && n <= 200 {
 			for bit := 24 * 8; bit < n*8; bit++ {
-				c04Emit(g, b.keyTok, c04Flip(b.pkt, bit), "refuse", 60, "bitflip", "bitflip-ciphertext")
+				c04Emit(g, b.keyTok, c04Flip(b.pkt, bit), altExp, 60, "bitflip", "bitflip-ciphertext")
 			}
 		} else {
 			for i := 0; i < g.N(256, 1500); i++ {
@@ -256,7 +271,7 @@ func c04Gen(g *G) {
 				if i < 32 { // the first two blocks hold the inner header: salt .. length
 					bit = 24*8 + r.Intn(32*8)
 				}
-				c04Emit(g, b.keyTok, c04Flip(b.pkt, bit), "refuse", 30, "bitflip", "bitflip-ciphertext")
+				c04Emit(g, b.keyTok, c04Flip(b.pkt, bit), altExp, 30, "bitflip", "bitflip-ciphertext")
 			}
 		}
 		// (2) every truncation length 0..n-1 (also below the 24-byte header); extensions
@@ -426,5 +441,6 @@ func init() {
 				kinds[k] = v
 			}
 			c04G.Extra["result_kinds"] = kinds
+			c04G.Extra["ciphertext_flips_delivered_as_the_same_message"] = c04SameMsg
 		}})
 }
